@@ -179,6 +179,14 @@ pub fn generate_c07(thorough: bool, seed: u64, part: (usize, usize), em: &mut Em
         for od in &[-100i64, -57, -56, -49, -48, -47, -1, 1, 2, 20, 21, 22, 1000, 0x7fffffff] { for ld in &[-30i64, -1, 0, 1, 2, 100, 65535] {
             run_auth(em, &c, &challenge(flags, &sc, &ti, *version, *od, *ld));
         } }
+        // 32-bit boundary of offset + length: absolute offsets near 2^31 and 2^32, and offset = 2^32 - len + k
+        let hdr: i64 = if *version { 56 } else { 48 };
+        let tl = ti.len() as i64;
+        for off in &[0xffff_ffffi64, 0xffff_fffe, 0xffff_ff00, 0xffff_0000, 0x8000_0000, 0x7fff_ffff, 0x1_0000_0000 - tl, 0x1_0000_0000 - tl - 1, 0x1_0000_0000 - tl + 1, 0x1_0000_0000 - 0x39, 0x1_0000_0000 - 65535] {
+            for ld in &[0i64, 1, 0x39 - tl, 65535] {
+                run_auth(em, &c, &challenge(flags, &sc, &ti, *version, *off - hdr, *ld));
+            }
+        }
     }
     // target-info shapes: no timestamp, no EOL, unknown ids, lengths past the end, empty
     let flags: u32 = 0x62898235;
